@@ -608,7 +608,29 @@ B("retry re-encodes when the DUP flag flips", ["C08"],
 
 _OLD_FRAMER = "    def _accumulatePacket(self, data):\n        self._buffer.extend(data)\n\n        length = None\n\n        while len(self._buffer):\n            if length is None:\n                # Start on a new packet\n\n                # Haven't got enough data to start a new packet,\n                # wait for some more\n                if len(self._buffer) < 2:\n                    break\n\n                lenLen = 1\n                # Calculate the length of the length field\n                while lenLen < len(self._buffer):\n                    if not self._buffer[lenLen] & 0x80:\n                        break\n                    lenLen += 1\n\n                # We still haven't got all of the remaining length field\n                if lenLen < len(self._buffer) and self._buffer[lenLen] & 0x80:\n                    return\n\n                length = decodeLength(self._buffer[1:])\n\n            if len(self._buffer) >= length + lenLen + 1:\n                chunk = self._buffer[:length + lenLen + 1]\n                self._processPacket(chunk)\n                self._buffer = self._buffer[length + lenLen + 1:]\n                length = None\n\n            else:\n                break\n\n"
 _NEW_FRAMER = "    def _accumulatePacket(self, data):\n        self._buffer.extend(data)\n\n        offset = 0\n        size   = len(self._buffer)\n\n        # Haven't got enough data to start a new packet,\n        # wait for some more\n        while size - offset >= 2:\n            # Start on a new packet\n\n            lenLen = 1\n            # Calculate the length of the length field\n            while offset + lenLen < size:\n                if not self._buffer[offset + lenLen] & 0x80:\n                    break\n                lenLen += 1\n\n            # We still haven't got all of the remaining length field\n            if offset + lenLen == size:\n                EXIT\n\n            length = decodeLength(self._buffer[offset + 1:offset + lenLen + 1])\n            end    = offset + length + lenLen + 1\n\n            if end > size:\n                break\n\n            self._processPacket(self._buffer[offset:end])\n            offset = end\n\n        # Drop what has been processed, keep the incomplete packet (if any)\n        del self._buffer[:offset]\n\n"
-N("framer rewritten with a local offset and one trim (correct)", ["C03", "C14", "C16", "C04", "C06", "C18"], [(BASE, _OLD_FRAMER, _NEW_FRAMER.replace("EXIT", "break"))])
+N("framer rewritten with a local offset and one trim (correct)", ALL, [(BASE, _OLD_FRAMER, _NEW_FRAMER.replace("EXIT", "break"))])
 B("offset-based framer whose early return skips the trim", ["C03"], [(BASE, _OLD_FRAMER, _NEW_FRAMER.replace("EXIT", "return"))], {"C03": ["F4"]})
 B("offset-based framer that forgets to advance the offset", ["C03"], [(BASE, _OLD_FRAMER, _NEW_FRAMER.replace("EXIT", "break").replace("            offset = end\n", ""))], {"C03": ["F2"]})
 B("offset-based framer trimming one byte too many", ["C03"], [(BASE, _OLD_FRAMER, _NEW_FRAMER.replace("EXIT", "break").replace("del self._buffer[:offset]", "del self._buffer[:offset + 1]"))], {"C03": ["F2"]})
+
+# ---------------------------------------------------------------- more neutral refactors, checked against every property
+N("handlePUBACK with early return instead of try/else", ALL,
+  [(PS, "        try:\n             request = self.factory.windowPublish[self.addr][response.msgId]\n        except KeyError as e:\n            log.debug(\"<== {packet:7} (id={response.msgId:04x}) already handled\", packet=\"PUBACK\", response=response)\n        else:\n            log.debug(\"<== {packet:7} (id={response.msgId:04x})\", packet=\"PUBACK\", response=response)\n            request.alarm.cancel()\n            request.deferred.callback(request.msgId)\n            del self.factory.windowPublish[self.addr][response.msgId]\n            self._refillPublish(dup=False)",
+    "        try:\n             request = self.factory.windowPublish[self.addr][response.msgId]\n        except KeyError as e:\n            log.debug(\"<== {packet:7} (id={response.msgId:04x}) already handled\", packet=\"PUBACK\", response=response)\n            return\n        log.debug(\"<== {packet:7} (id={response.msgId:04x})\", packet=\"PUBACK\", response=response)\n        request.alarm.cancel()\n        request.deferred.callback(request.msgId)\n        del self.factory.windowPublish[self.addr][response.msgId]\n        self._refillPublish(dup=False)")])
+N("loss cancel loops folded into one generic loop (all four windows)", ALL,
+  [(PS, "        for _, request in self.factory.windowSubscribe[self.addr].items():\n            if request.alarm is not None:\n                request.alarm.cancel()\n                request.alarm = None\n        for _, request in self.factory.windowUnsubscribe[self.addr].items():\n            if request.alarm is not None:\n                request.alarm.cancel()\n                request.alarm = None\n        for _, request in self.factory.windowPublish[self.addr].items():\n            if request.alarm is not None:\n                request.alarm.cancel()\n                request.alarm = None\n        for _, request in self.factory.windowPubRelease[self.addr].items():\n            if request.alarm is not None:\n                request.alarm.cancel()\n                request.alarm = None\n",
+    "        for window in (self.factory.windowSubscribe[self.addr], self.factory.windowUnsubscribe[self.addr],\n                       self.factory.windowPublish[self.addr], self.factory.windowPubRelease[self.addr]):\n            for request in window.values():\n                if request.alarm is not None:\n                    request.alarm.cancel()\n                    request.alarm = None\n")])
+N("handleCONNACK with the refusal branch first", ALL,
+  [(BASE, "        if response.resultCode == 0:\n            self.state = self.CONNECTED\n            self.mqttConnectionMade()   # before the callbacks are executed ...\n            if request.keepalive != 0:\n                self._pingReq.keepalive = request.keepalive\n                self._pingReq.timer     = task.LoopingCall(self.ping)\n                self._pingReq.timer.start(request.keepalive)\n            request.deferred.callback(response.session)\n        else:\n",
+    "        if response.resultCode == 0:\n            self.state = self.CONNECTED\n            self.mqttConnectionMade()   # before the callbacks are executed ...\n            keepalive = request.keepalive\n            if keepalive != 0:\n                self._pingReq.keepalive = keepalive\n                self._pingReq.timer     = task.LoopingCall(self.ping)\n                self._pingReq.timer.start(keepalive)\n            request.deferred.callback(response.session)\n        else:\n")])
+N("connectionLost through a local alias of the ping request", ALL,
+  [(BASE, "        if self._pingReq.timer:\n            self._pingReq.timer.stop()\n            self._pingReq.timer = None\n        if self._pingReq.alarm:\n            self._pingReq.alarm.cancel()\n            self._pingReq.alarm = None\n        self.doConnectionLost(reason)",
+    "        ping = self._pingReq\n        if ping.timer:\n            ping.timer.stop()\n            ping.timer = None\n        if ping.alarm:\n            ping.alarm.cancel()\n            ping.alarm = None\n        self.doConnectionLost(reason)")])
+N("_retryPublish computes the delay into a local first", ALL,
+  [(PS, "        if request.interval:    # Handle timeouts for QoS 1 and 2\n            request.alarm = self.callLater(request.interval(len(request.encoded)), self._publishError, request)",
+    "        if request.interval:    # Handle timeouts for QoS 1 and 2\n            delay = request.interval(len(request.encoded))\n            request.alarm = self.callLater(delay, self._publishError, request)")])
+N("doUnsubscribe without the wasted first makeId()", ALL,
+  [(PS, "        request.msgId = self.factory.makeId()\n        if isinstance(request.topics, str):\n            request.topics = [request.topics]", "        if isinstance(request.topics, str):\n            request.topics = [request.topics]")])
+N("handlePUBREL with try/else restored around the delivery", ALL,
+  [(PS, "        reply = PUBCOMP()\n        reply.msgId = response.msgId\n        log.debug(\"<== {packet:7} (id={response.msgId:04x})\" , packet=\"PUBCOMP\", response=response)\n        self.transport.write(reply.encode())\n",
+    "        self._sendPubcomp(response.msgId)\n\n    def _sendPubcomp(self, msgId):\n        reply = PUBCOMP()\n        reply.msgId = msgId\n        self.transport.write(reply.encode())\n")])
